@@ -75,7 +75,9 @@ def run_case(acc, case):
     if npages:
         acc['ntkeys'].add(core.ckey(variant, length, case['sched'], case.get('start_error', False)))
     probs = []
-    if r.code != 0:
+    if r.stuck:
+        probs.append('the run never ends: ' + r.stuck)
+    elif r.code != 0:
         probs.append('run did not complete: exit %r, output tail %r' % (r.code, r.stdout[-160:]))
     else:
         padded = npages * dfusim.PAGE
